@@ -280,8 +280,12 @@ def generate(rng, tier, k):
 # ------------------------------------------------------------------------------------------- execution
 
 def _prepare(scn, d, outname, with_manifest, num_workers=None, syntax="inline"):
-    paths = world.write_corpus(scn["corpus"], d)
-    mp = world.write_map(scn["corpus"], paths, d)
+    mp = os.path.join(d, "map.txt")
+    if not os.path.exists(mp):  # the corpus is written once per scenario: runs of one scenario share their inputs
+        paths = world.write_corpus(scn["corpus"], d)
+        mp = world.write_map(scn["corpus"], paths, d)
+    else:
+        paths = None
     argv = [mp]
     if scn.get("cfg") is not None:
         argv.append(world.config_arg(common.alias_computer(scn["cfg"]), syntax, d, "computer"))
